@@ -115,10 +115,15 @@ func declare(sh sShape) reflect.Type {
 		sf = append(sf, reflect.StructField{Name: "ID", Type: reflect.TypeOf(""), Tag: tagOf("identifier", "st")})
 	case "nojson":
 		sf = append(sf, reflect.StructField{Name: "ID", Type: reflect.TypeOf(""), Tag: tagOf("", "st")})
-	case "absent":
+	case "named":
+		sf = append(sf, reflect.StructField{Name: "ID", Type: reflect.TypeOf(Label("")), Tag: tagOf("id", "st")})
+	case "absent", "last":
 	}
 	for i, f := range sh.Fields {
 		sf = append(sf, reflect.StructField{Name: fmt.Sprintf("F%d", i+1), Type: shapeGoTypes[f.GoType], Tag: tagOf(f.JSON, f.API)})
+	}
+	if sh.ID == "last" {
+		sf = append(sf, reflect.StructField{Name: "ID", Type: reflect.TypeOf(""), Tag: tagOf("id", "st")})
 	}
 	return reflect.StructOf(sf)
 }
@@ -214,6 +219,16 @@ func runStructCase(c sCaseT) sEventT {
 	}
 	try("new", func() { _ = w.New() })
 	try("copy-zero", func() { _ = w.Copy() }) // every pointer field still nil
+	if ev.Obs.Build == "ok" {
+		try("unmarshal", func() { // what a request does with the type: a new instance, its id set from a JSON string
+			sc := &jsonapi.Schema{}
+			must(sc.AddType(typ))
+			r, err := jsonapi.UnmarshalResource([]byte(`{"type":"`+typ.Name+`","id":"u1"}`), sc)
+			if err != nil || r.Get("id") != "u1" {
+				panic(fmt.Sprint("not read: ", err))
+			}
+		})
+	}
 	try("setid", func() { w.Set("id", "i1") })
 	try("getid", func() {
 		if w.Get("id").(string) != "i1" {
